@@ -65,9 +65,9 @@ def check_instance(ctx, monitor, name, lhs, rhs, data, n):
         ctx.skipped_undef += 1
         return None
     if not common.same_nums(l[1], r[1]):
-        i = next(j for j in range(n) if not common.num_eq(l[1][j], r[1][j]))
+        i = next((j for j in range(min(len(l[1]), len(r[1]))) if not common.num_eq(l[1][j], r[1][j])), min(len(l[1]), len(r[1])))
         return Violation("law %s fails on the %s monitor at sample %d: lhs %r, rhs %r (%s)" %
-                         (name, monitor, i, l[1][i], r[1][i], rep["lhs"]), rep, stream="laws")
+                         (name, monitor, i, l[1][i] if i < len(l[1]) else None, r[1][i] if i < len(r[1]) else None, rep["lhs"]), rep, stream="laws")
     return None
 
 
